@@ -42,8 +42,8 @@ const NUM_ITEMS: &[&str] = &["1", "42", "-3", "0.5", ".5", "007"];
 const QUOTED_ITEMS: &[&str] = &["\"\"", "\"a\"", "\"a b\"", "\" pad \"", "\"x,y\"", "\"a:b\"", "\"Mixed\"", "\"é\""];
 const ILLEGAL: &[&str] = &["%", "é", "!", "&", "😊", "_"];
 
-fn pick(v: &'static [&'static str]) -> impl Strategy<Value = String> {
-    (0..v.len()).prop_map(move |i| v[i].to_string())
+fn pick(v: &'static [&'static str]) -> BoxedStrategy<String> {
+    (0..v.len()).prop_map(move |i| v[i].to_string()).boxed()
 }
 
 fn free_atom() -> impl Strategy<Value = Vec<Seg>> {
@@ -53,6 +53,10 @@ fn free_atom() -> impl Strategy<Value = Vec<Seg>> {
         4 => pick(NUMERALS),
         6 => pick(OPS),
         2 => pick(&[" ", "  ", "\t", " \t "]),
+        // identifiers over every letter, and tight digit/letter/sign runs (the
+        // shapes of exponents, hex-like numerals, suffixes: `2E3`, `5e-3`, `1D+2`)
+        3 => "[A-Za-z]{1,3}[0-9]?\\$?",
+        3 => "[0-9.]{1,3}[A-Za-z]{1,2}[+-]?[0-9]{1,2}",
     ]
     .prop_map(|s| vec![Seg::Free(s)])
 }
@@ -276,6 +280,11 @@ fn mixr(x: u64) -> u64 {
     splitmix(x)
 }
 
+/// The line as typed (no perturbation): used by C14 as a source of token-dense lines.
+pub fn base_text(c: &SegLine) -> String {
+    render_with(&c.segs, &[], &|_, _, ch| ch, false)
+}
+
 fn check(c: &SegLine, rec: &mut CaseRec) -> Verdict {
     let segs = &c.segs;
     if accidental_rem_or_data(segs) {
@@ -410,7 +419,7 @@ pub fn property() -> Property {
     let families: Vec<Box<dyn Family>> = vec![prop_family("segment-lines", 150_000, 2_000_000, |_| seg_line(), check)];
     Property {
         id: "C12",
-        rule: "Lines are built from segments tagged by construction as free (keywords, identifiers over the full alphabet incl. SCORE/TOTAL/FORK/NOTE/XTHEN, numerals incl. .5 / 007 / '1 2', one- and two-character operators incl. spaced ones, punctuation, quotes, blanks), protected (string interiors, REM tails, unterminated-string rests) or DATA items (quoted / bare / numeric). Per base line the check applies: all blanks removed; a blank / tab / three blanks at every free gap; each gap individually; all 2^k gap subsets when k <= 8 (random subsets otherwise); all-lower, all-upper, each single letter flipped, random flips. Oracle: the token sequence (or, for untokenizable bases, the error kind and the tokens before it) through the tokenizer hook is identical for every variant, and LIST of `10 <variant>` equals LIST of `10 <base>`. Each variant is one evaluation. Non-trivial: base with >= 4 tokens containing a keyword-bearing identifier, two-character operator, spaced numeral or DATA, and at least one variant whose bytes differ; distinct by base text. Lines whose free text accidentally spells REM or DATA are excluded (counted).",
+        rule: "Lines are built from segments tagged by construction as free (keywords, identifiers over the full alphabet incl. SCORE/TOTAL/FORK/NOTE/XTHEN and random 1-3 letter names, numerals incl. .5 / 007 / '1 2', tight digit-letter-sign-digit runs such as 2E3 / 5e-3 / 1.d+2, one- and two-character operators incl. spaced ones, punctuation, quotes, blanks), protected (string interiors, REM tails, unterminated-string rests) or DATA items (quoted / bare / numeric). Per base line the check applies: all blanks removed; a blank / tab / three blanks at every free gap; each gap individually; all 2^k gap subsets when k <= 8 (random subsets otherwise); all-lower, all-upper, each single letter flipped, random flips. Oracle: the token sequence (or, for untokenizable bases, the error kind and the tokens before it) through the tokenizer hook is identical for every variant, and LIST of `10 <variant>` equals LIST of `10 <base>`. Each variant is one evaluation. Non-trivial: base with >= 4 tokens containing a keyword-bearing identifier, two-character operator, spaced numeral or DATA, and at least one variant whose bytes differ; distinct by base text. Lines whose free text accidentally spells REM or DATA are excluded (counted).",
         assumptions: vec!["the protected map comes from the generator's construction, not from the tokenizer; the exclusion rule guards the one way it could be wrong"],
         fuzz: None,
         families,
